@@ -805,7 +805,7 @@ func (w *c16World) peer(p *c16Party) *c16Party {
 	return w.parties["A"]
 }
 
-const c16Wait = 20 * time.Second
+const c16Wait = 90 * time.Second // generous: the box may be heavily oversubscribed; a timeout is exit 2, never a verdict
 
 func (w *c16World) finish() {
 	for _, p := range w.parties {
